@@ -18,7 +18,7 @@ class Prop:
     id = "C42"
     level = "fault_enumeration"
     engine = "VT"
-    quick_runs = 8000
+    quick_runs = 16000
     thorough_runs = 400000
     chunk = 50
     rule = ("per seeded tree of recursive scheduling (immediate/relative/absolute/periodic, through the scheduler handed to each action, "
